@@ -876,6 +876,54 @@ func checkMapRanges(w *World, lib []*FuncInfo) []*OwnOb {
 	var out []*OwnOb
 	for _, fi := range lib {
 		info := fi.Pkg.TypesInfo
+		// maps.Keys / maps.Values / maps.All hand out the entries in map order: fine when the result is sorted on the spot
+		// (slices.Sorted(maps.Keys(m))), otherwise the function must have a functional contract, like a range
+		{
+			sortedArg := map[*ast.CallExpr]bool{}
+			ast.Inspect(fi.Decl.Body, func(nd ast.Node) bool {
+				if c, ok := nd.(*ast.CallExpr); ok {
+					switch exprString(c.Fun) {
+					case "slices.Sorted", "slices.SortedFunc", "slices.SortedStableFunc":
+						if len(c.Args) > 0 {
+							if in, ok := c.Args[0].(*ast.CallExpr); ok {
+								sortedArg[in] = true
+							}
+						}
+					}
+				}
+				return true
+			})
+			k := 0
+			ast.Inspect(fi.Decl.Body, func(nd ast.Node) bool {
+				c, ok := nd.(*ast.CallExpr)
+				if !ok {
+					return true
+				}
+				switch extFuncName(c, info) {
+				case "maps.Keys", "maps.Values", "maps.All", "golang.org/x/exp/maps.Keys", "golang.org/x/exp/maps.Values":
+				default:
+					return true
+				}
+				if sortedArg[c] {
+					return true
+				}
+				k++
+				functional := false
+				if ct := fi.Contract; ct != nil && !ct.Trusted {
+					for _, en := range ct.Ensures {
+						if strings.Contains(en.Src, "(= res") || strings.Contains(en.Src, "(= (isErr err)") {
+							functional = true
+						}
+					}
+				}
+				why := "covered by the function's functional postcondition, which is proved for every iteration order"
+				if !functional {
+					why = exprString(c.Fun) + " yields the entries in map order and the result is not sorted on the spot: sort it, or give the function a functional contract"
+				}
+				out = append(out, &OwnOb{Key: fmt.Sprintf("%s.effects[map range #k%d is order-independent]", fi.Key, k), Kind: "effects", OK: functional, Pos: posStr(w, c.Pos()), Why: why})
+				return true
+			})
+		}
 		n := 0
 		ast.Inspect(fi.Decl.Body, func(nd ast.Node) bool {
 			rs, ok := nd.(*ast.RangeStmt)
